@@ -103,11 +103,23 @@ def run(res):
         outp = w.path("RPU.bin")
         if os.path.exists(outp):
             os.remove(outp)
-        mode = r.choice([None, None, 0])
+        mode = r.choice([None, None, 0]) if not neg else None
+        if mode is not None and len(pool) >= len(frames):
+            # conversions need parseable RPUs: give every frame a distinct valid one
+            sel = r.sample(pool, len(frames))
+            for f, x in zip(frames, sel):
+                for i, nn in enumerate(f):
+                    if nn.type == 62:
+                        f[i] = S.SNal(H.rpu_nal(x))
+            nals = S.flatten(frames)
+            data = S.stream_bytes(r, nals, sc=r.choice(["four", "mixed"]))
+            in_rpus = [R.unescape(nn.data[2:]) for nn in nals if nn.type == 62]
+            inp = w.write("in.hevc", data)
         args = (["-m", str(mode)] if mode is not None else []) + ["extract-rpu", inp, "-o", outp]
         ec, txt = cli.run(args, w.dir, chunk_size=cs)
         nrun += 1
         kinds["extract"] = kinds.get("extract", 0) + 1
+        kinds["extract_ok"] = kinds.get("extract_ok", 0) + (1 if ec == "0" else 0)
         m = C.model().run(["extract m=%s %s" % ("-" if mode is None else mode, ";".join(x.model() for x in nals))])[0]
         got = [x.rstrip(b"\x00") for x in R.read_rpu_file_raw(outp)] if ec == "0" and os.path.exists(outp) else None
         rp = {"cmd": "extract-rpu", "gop": gop, "chunk_size": cs, "stream_hex": data.hex(), "nals": [x.model() for x in nals]}
